@@ -907,7 +907,9 @@ def replay(ctx, path):
         r = summarize(scn, line, traces[0], mo, False)
         print("\n".join(impl_view(traces[0])[-40:]))
         if r.get("limit"):
-            print(f"# spawn failure: no worker thread left, {r['limit']} waits forever (documented limit of the liveness clause, not a violation)")
+            why = ("~ThreadPool queued terminate jobs for threads that were never created: _threadCount leak of the original failure branch, repaired by fixes/future/0006"
+                   if r["limit"] == "destructor" else "no worker thread can be created: documented limit of the liveness clause")
+            print(f"# spawn failure: no worker thread left, {r['limit']} waits forever ({why}; not a C10 violation)")
         print(f"verdict={r['verdict']} steps={r['steps']} reference={r['bad']} model-diff={r['diff']}")
         if r["sig"]:
             ctx.violation(f"replay: {r['sig']}", line + "\n# " + " ; ".join(f"{c}: {m}" for c, m in r["bad"]) + "\n", signature=r["sig"])
